@@ -56,7 +56,32 @@ func reg[T any](name string, encodable bool) {
 	}
 }
 
-func Get(name string) *Entry { return entries[name] }
+func Get(name string) *Entry {
+	if e, ok := entries[name]; ok {
+		return e
+	}
+	return genEntries[name]
+}
+
+// genEntries are the types of zz_named_gen.go (written by verifh/gencat), kept apart
+// from the hand-written catalogue so that the units drawing from it are unaffected.
+var genEntries = map[string]*Entry{}
+
+func regGen[T any](name string) {
+	reg[T](name, true)
+	genEntries[name] = entries[name]
+	delete(entries, name)
+}
+
+// GenNames lists the generated named types.
+func GenNames() []string {
+	var out []string
+	for n := range genEntries {
+		out = append(out, n)
+	}
+	sort.Strings(out)
+	return out
+}
 
 func Names(encodableOnly bool) []string {
 	var out []string
